@@ -6,14 +6,19 @@ import sys,os,difflib
 pid,name=sys.argv[1],sys.argv[2]
 args=sys.argv[3:]
 out=[]
+files={}
+order=[]
 for k in range(0,len(args),3):
     f,old,new=args[k:k+3]
     old=old.encode().decode('unicode_escape'); new=new.encode().decode('unicode_escape')
-    src=open('/repo/'+f).read()
-    if old not in src:
+    if f not in files:
+        files[f]=open('/repo/'+f).read(); order.append(f)
+    if old not in files[f]:
         sys.exit("pattern not found in %s: %r"%(f,old))
-    dst=src.replace(old,new,1)
-    out+=list(difflib.unified_diff(src.splitlines(True),dst.splitlines(True),'a/'+f,'b/'+f))
+    files[f]=files[f].replace(old,new,1)
+for f in order:
+    src=open('/repo/'+f).read()
+    out+=list(difflib.unified_diff(src.splitlines(True),files[f].splitlines(True),'a/'+f,'b/'+f))
 os.makedirs('/verif/mutants/'+pid,exist_ok=True)
 open('/verif/mutants/%s/%s.patch'%(pid,name),'w').write(''.join(out))
 print("wrote /verif/mutants/%s/%s.patch"%(pid,name))
